@@ -1,11 +1,46 @@
 import EpdVerif.Drivers.Dsl
 import EpdVerif.Gen.Epd7in5_v2
-/-! model of `src/epd7in5_v2/mod.rs` (STUB: programs not yet transcribed) -/
+/-! model of `src/epd7in5_v2/mod.rs` -/
 namespace EpdVerif.Drivers.Epd7in5_v2
 open EpdVerif
 open EpdVerif.Gen.Epd7in5_v2
 
+/-- `wait_until_idle` = `interface.wait_until_idle_with_cmd(.., IS_BUSY_LOW, GetStatus)` -/
+def W : Act := .waitCmd IS_BUSY_LOW Command.GetStatus
+
+def sendResolution : List Act :=
+  [.cmd Command.TconResolution, .data [shr8 WIDTH 8], .data [u8 WIDTH],
+   .data [shr8 HEIGHT 8], .data [u8 HEIGHT]]
+
+def init : List Act :=
+  [.reset 10000 2000] ++
+  cmdData Command.PowerSetting [0x07, 0x07, 0x3f, 0x3f] ++
+  cmdData Command.BoosterSoftStart [0x17, 0x17, 0x28, 0x17] ++
+  [.cmd Command.PowerOn, .delayMs 100, W] ++
+  cmdData Command.PanelSetting [0x1F] ++
+  cmdData Command.TconResolution [0x03, 0x20, 0x01, 0xE0] ++
+  cmdData Command.DualSpi [0x00] ++
+  cmdData Command.VcomAndDataIntervalSetting [0x10, 0x07] ++
+  cmdData Command.TconSetting [0x22]
+
+def updateFrame (b : Bytes) : List Act := [W] ++ cmdData Command.DataStartTransmission2 b
+
 def prog (_f : Feat) (_d : DState) : Op → Option (List Act)
+  | .new => some init
+  | .wake => some init
+  | .sleep => some ([W, .cmd Command.PowerOff, W] ++ cmdData Command.DeepSleep [0xA5])
+  | .upd b => some (updateFrame b)
+  | .part _ _ _ _ _ => some [.panic]
+  | .disp => some [W, .cmd Command.DisplayRefresh]
+  | .updisp b => some (updateFrame b ++ [.cmd Command.DisplayRefresh])
+  | .clear =>
+    some ([W] ++ sendResolution ++
+      [.cmd Command.DataStartTransmission1, .rep 0x00 (WIDTH / 8 * HEIGHT),
+       .cmd Command.DataStartTransmission2, .rep 0x00 (WIDTH / 8 * HEIGHT),
+       .cmd Command.DisplayRefresh])
+  | .bg c => some [.upd (fun d => { d with bg := c })]
+  | .lut _ => some [.panic]
+  | .wait => some [W]
   | _ => none
 
 def panel (f : Feat) : Panel :=
